@@ -115,6 +115,29 @@ def teq(a, b):
     return a == b
 
 
+def first_diff(a, b, path='$'):
+    """Where two values stop being teq: (path, repr a, repr b) of the smallest differing subterm (diagnostics for witnesses)."""
+    if teq(a, b):
+        return None
+    if type(a) is type(b):
+        if isinstance(a, (list, tuple)) and len(a) == len(b):
+            for i, (x, y) in enumerate(zip(a, b)):
+                d = first_diff(x, y, '%s[%d]' % (path, i))
+                if d:
+                    return d
+        elif isinstance(a, dict) and len(a) == len(b):
+            for k in a:
+                if k in b:
+                    d = first_diff(a[k], b[k], '%s[%r]' % (path, k))
+                    if d:
+                        return d
+        elif hasattr(a, '__dict__') and not isinstance(a, type):
+            d = first_diff(a.__dict__, b.__dict__, path + '.__dict__')
+            if d:
+                return d
+    return (path, '%s:%s' % (type(a).__name__, repr(a)[:200]), '%s:%s' % (type(b).__name__, repr(b)[:200]))
+
+
 def in_domain(v):
     try:
         return teq(_jp_decode(_jp_encode(v, unpicklable=True)), v)
@@ -125,9 +148,20 @@ def in_domain(v):
 def recording_in_domain(data, md):
     """Serializer-domain gate for a whole recording, asked of jsonpickle directly: the graph as the in-memory/file cassettes
     encode it, as the S3 cassette encodes it, and every value alone (get_data copies one value through the serializer)."""
-    if not in_domain({'recording_data': data, 'recording_metadata': md}):
-        return False
-    if not in_domain(dict(data, _metadata=md)):
+    # two stages, as every cassette does it: the whole graph is decoded on fetch, then single values are copied through the
+    # serializer again (get_data / the player's output comparison). The first stage can return a graph that is equal but
+    # *shares differently* (a py/id resolved to another, equal, object), which only the second stage turns into a wrong value.
+    try:
+        for whole, pick in (({'recording_data': data, 'recording_metadata': md}, lambda d: d['recording_data']),
+                            (dict(data, _metadata=md), lambda d: d)):
+            d1 = _jp_decode(_jp_encode(whole, unpicklable=True))
+            if not teq(d1, whole):
+                return False
+            d1 = pick(d1)
+            for k, v in data.items():
+                if not teq(_jp_decode(_jp_encode(d1[k], unpicklable=True)), v):
+                    return False
+    except Exception:
         return False
     if not in_domain(md):
         return False
